@@ -546,8 +546,8 @@ pub fn main(args: Args) {
 
     let corpus: Arc<Vec<vcommon::corpus::CorpusFile>> = Arc::new(vcommon::corpus::all_veryl());
     // sized for a shared, heavily loaded 16-core machine (5-15 evaluations/s): quick 2-4 min, thorough ~30-40 min
-    let n_inputs = args.budget("inputs", if is08 { 400 } else { 360 }, if is08 { 3000 } else { 2500 });
-    let k = args.budget("settings", if is08 { 3 } else { 2 }, if is08 { 6 } else { 4 });
+    let n_inputs = args.budget("inputs", if is08 { 400 } else { 360 }, if is08 { 2000 } else { 1500 });
+    let k = args.budget("settings", if is08 { 3 } else { 2 }, if is08 { 5 } else { 4 });
     let seed = args.seed;
     let total = n_inputs * k;
     let tag: &'static str = if is08 { "C08" } else { "C09" };
